@@ -183,6 +183,35 @@ def run_sweep(case):
                         if not any(p['sig'] == 'manystripes:' + s_ for p in probs):
                             probs.append(dict(sig='manystripes:' + s_, msg=m[:1500]))
                 nt.append(('manystripes', npart, dtype.__name__))
+        # weights whose type differs from the positions' (wider floats, integer ids): they move with their particles, unchanged
+        for pdt, wdt in ((np.float32, np.float64), (np.float32, np.int64), (np.float64, np.float32), (np.float32, np.uint8)):
+            N = 61
+            pos = np.empty((N, 3), dtype=pdt)
+            pos[:, 0] = ((np.arange(N) * 37) % N + 0.5) * (box / N)
+            pos[:, 1] = np.arange(N) + 0.5
+            pos[:, 2] = 7.0
+            if wdt is np.float64:
+                w = 1e9 + np.arange(N) + 1 / 3
+            elif wdt is np.int64:
+                w = (1 << 40) + 3 * np.arange(N, dtype=np.int64) + 1
+            elif wdt is np.uint8:
+                w = (np.arange(N) * 5 % 251).astype(np.uint8)
+            else:
+                w = (np.arange(N) + 0.5).astype(np.float32)
+            for nthread, sort in ((1, False), (4, False), (4, True)):
+                w0 = w.copy()
+                try:
+                    ps, st, ws = tsc.partition_parallel(pos, 4, box, weights=w, coord=0, nthread=nthread, sort=sort)
+                except (TypeError, ValueError):
+                    continue        # (a weight type may be refused)
+                n += 1
+                ps, ws = np.asarray(ps), np.asarray(ws)
+                ident = np.round(ps[:, 1] - 0.5).astype(np.int64)
+                if not np.array_equal(w, w0):
+                    probs.append(dict(sig='mixed-dtype:input-modified', msg=f'pos {pdt.__name__} weights {wdt.__name__}: input weights modified'))
+                if ws.shape != (N,) or not np.array_equal(np.sort(ident), np.arange(N)) or not np.array_equal(ws.astype(np.float64) if wdt is not np.int64 else ws, (w0[ident].astype(np.float64) if wdt is not np.int64 else w0[ident])):
+                    probs.append(dict(sig='mixed-dtype:weights-not-carried', msg=f'pos {pdt.__name__} weights {wdt.__name__} nthread={nthread} sort={sort}: returned weights ({ws.dtype}) are not the input weights of the same particles, e.g. {ws[:3].tolist()} vs {w0[ident][:3].tolist()}'))
+            nt.append(('mixed-dtype', pdt.__name__, wdt.__name__))
     return dict(problems=probs, evals=n, nt=nt, states=1, transitions=1, traces=0, extra=dict(sweep_runs=n))
 
 
